@@ -38,7 +38,7 @@ class Canon:
                     tg = [n.target]
                 for t in tg:
                     for m in ast.walk(t):
-                        if isinstance(m, ast.Name):
+                        if isinstance(m, ast.Name) and isinstance(m.ctx, ast.Store):
                             count[m.id] = count.get(m.id, 0) + 1
                             if isinstance(n, ast.Assign) and len(n.targets) == 1 and t is m:
                                 val[m.id] = n.value
